@@ -1091,6 +1091,9 @@ class Interp(object):
 
     def _havoc(self, names, extra):
         for nm in sorted(names):
+            if nm in (extra or {}) and not nm.startswith('__') and nm in self.f.locals and not isinstance(self.f.locals[nm], MBytes):
+                self.f.locals[nm] = extra[nm](self.ctx)
+                continue
             if nm in self.f.locals:
                 v = self.f.locals[nm]
                 if isinstance(v, MBytes):
@@ -1185,7 +1188,13 @@ class Interp(object):
     def _for_with_invariant(self, s, it, spec):
         inv, havoc, decreases = spec[:3]
         tag = '%s/loop@%d' % (self.f.fname, loop_ordinal(self.f, s))
-        if isinstance(it, SymRange):
+        if isinstance(it, SymRange) and it.step != 1:
+            # iterations are counted by _i: the loop variable is lo + step*_i, running while that is < hi
+            st = it.step
+            base = it.lo
+            cnt = (it.hi - base + (st - 1)) // st
+            lo, n, getter = 0, sym.int_max(cnt, 0), (lambda i: base + st * i)
+        elif isinstance(it, SymRange):
             lo, n, getter = it.lo, it.hi, (lambda i: i)
         elif isinstance(it, (SBytes, SSeq, SStr)):
             lo, n, getter = 0, it.length(), (lambda i: it[i])
@@ -1194,12 +1203,17 @@ class Interp(object):
             lo, n, getter = 0, snap.length(), (lambda i: snap[i])
         else:
             raise Unsupported('for-loop invariant over %s' % type(it).__name__)
-        self._check_inv(tag + '/inv-init', inv, LocalsView(self.f, {'_i': lo, '_n': n}))
+        gf = self._gen_frame()
+        ys = lambda: (gf.yields if gf is not None else None)
+        on_exit = spec[3] if len(spec) > 3 else None
+        self._check_inv(tag + '/inv-init', inv, LocalsView(self.f, {'_i': lo, '_n': n, '_phase': 'init', '_yields': ys()}))
         names = self._assigned_names(s.body) | {n_.id for n_ in ast.walk(s.target) if isinstance(n_, ast.Name)}
         self._havoc(names, havoc)
+        if gf is not None:
+            gf.yields = []
         i = self.ctx.fresh_int('iter', register=False)
         self.ctx.assume(sym.and_(i >= lo, sym.or_(i <= n, i <= lo)), silent=True)
-        self._assume_inv(inv, LocalsView(self.f, {'_i': i, '_n': n}))
+        self._assume_inv(inv, LocalsView(self.f, {'_i': i, '_n': n, '_phase': 'assume', '_yields': ys()}))
         if truth(self.ctx, i < n):
             self.assign(s.target, getter(i))
             try:
@@ -1208,9 +1222,11 @@ class Interp(object):
                 return
             except _Continue:
                 pass
-            self._check_inv(tag + '/inv-step', inv, LocalsView(self.f, {'_i': i + 1, '_n': n}))
+            self._check_inv(tag + '/inv-step', inv, LocalsView(self.f, {'_i': i + 1, '_n': n, '_phase': 'step', '_yields': ys()}))
             raise PathAbort('loop body verified')
         else:
+            if on_exit is not None:
+                self._check_inv(tag + '/on-exit', on_exit, LocalsView(self.f, {'_i': i, '_n': n, '_phase': 'exit', '_yields': ys()}))
             self.exec_block(s.orelse)
 
     def iter_values(self, it, node=None):
@@ -1249,7 +1265,7 @@ class Interp(object):
                 if n > MAX_UNROLL:
                     raise Undecided('range loop in %s needs an invariant' % self.f.fname)
                 yield i
-                i = i + 1
+                i = i + it.step
             return
         if isinstance(it, MBytes):
             it = it.get()
@@ -1860,9 +1876,10 @@ _LOOP_ORD = {}
 
 
 class SymRange(object):
-    def __init__(self, lo, hi):
+    def __init__(self, lo, hi, step=1):
         self.lo = lo
         self.hi = hi
+        self.step = step
 
 
 _loop_index_cache = {}
